@@ -73,11 +73,17 @@ def schedule_eval(sched, t):
     raise ValueError(k)
 
 
-def schedule_args(sched):
+def schedule_args(sched, as_function=False):
     k = sched['kind']
     if k == 'iso':
+        if as_function:
+            T = float(sched['T'])
+            return ((lambda t: T),)
         return (float(sched['T']),)
     if k == 'array':
+        if as_function:      # the same arithmetic as the library's break-point interpolation => bit-identical T
+            hrs, Ts = list(sched['hours']), list(sched['temps'])
+            return ((lambda t: np.interp(t / 3600, hrs, Ts, Ts[0], Ts[-1])),)
         return (list(sched['hours']), list(sched['temps']))
     if k == 'ramp':
         T0, rate, lo, hi = sched['T0'], sched['rate'], sched['lo'], sched['hi']
@@ -155,8 +161,8 @@ def build_model(cfg, therm, temperature_via='setter'):
             pp.Rmin = cfg['Rmin']
         precs.append(pp)
 
-    sargs = schedule_args(cfg['schedule'])
-    if temperature_via == 'ctor':
+    sargs = schedule_args(cfg['schedule'], as_function=temperature_via.endswith('_function'))
+    if temperature_via.startswith('ctor'):
         temp = TemperatureParameters(*sargs)
         model = PrecipitateModel(thermodynamics=therm, matrixParameters=matrix, precipitateParameters=precs,
                                  temperatureParameters=temp)
